@@ -10,8 +10,8 @@
         [ast::Expr::eq] holds (Token equality ignores positions), so a text is a list of (chunk, layout) pairs and
         the AST of a text forgets the layout;
       - the full analysis of a text is one unknown function [check : text -> D] (D = the diagnostics published for
-        the document); lowering one chunk in the context a previous analysis left behind is an unknown partial
-        function [lower]; every theorem holds for all such functions;
+        the document); lowering one chunk in the context a previous analysis left behind is an unknown function
+        [lower] (which may fail or panic); every theorem holds for all such functions;
       - the answer of the module graph ([dependencies_of]) and the state of the other modules is an oracle carried
         by the didSave event ([deps]); the theorems hold for every answer;
       - texts parse ([build_ast] succeeds); a syntax error makes [build_ast] return a partial AST, not modelled.
@@ -110,23 +110,32 @@ Inductive hirdiff : Type :=
 | HModification (idx : nat) (h : hchunk)
 | HNop.
 
+(** the outcome of [lowerer.lower_and_resolve_chunk(expr, None)]: Ok(e) and Err((Some(e), _)) give [LSome e],
+    Err((None, _)) gives [LNone]; the checker can also panic on a chunk (known finding C29-quick-check-panics:
+    `... has qvar` while lowering one chunk in the context an earlier analysis left) *)
+Inductive lowered : Type :=
+| LSome (h : hchunk)
+| LNone
+| LPanic.
+
 Section Lowering.
-  (** [lowerer.lower_and_resolve_chunk(expr, None)] in the context the last analysis left: Ok(e) and Err((Some(e), _))
-      give [Some e], Err((None, _)) gives [None].  ([lowerer.unregister(name)] before a Modification only acts
-      on that context.) *)
-  Variable lower : chunk -> option hchunk.
+  (** lowering one chunk in the context the last analysis left ([lowerer.unregister(name)] before a Modification only
+      acts on that context) *)
+  Variable lower : chunk -> lowered.
   (** [Expr::name()] of an AST / HIR chunk (the variant: "Def", "Call", ...) and [ref_t().contains_failure()] *)
   Variable cname : chunk -> Z.
   Variable hname : hchunk -> Z.
   Variable hfailed : hchunk -> bool.
 
   (** HIRDiff::new(diff, lowerer) *)
-  Definition hirdiff_new (d : astdiff) : option hirdiff :=
+  Definition hirdiff_new (d : astdiff) : res (option hirdiff) :=
     match d with
-    | Deletion idx => Some (HDeletion idx)
-    | Addition idx c => match lower c with Some h => Some (HAddition idx h) | None => None end
-    | Modification idx c => match lower c with Some h => Some (HModification idx h) | None => None end
-    | Nop => Some HNop
+    | Deletion idx => Ok (Some (HDeletion idx))
+    | Addition idx c =>
+        match lower c with LSome h => Ok (Some (HAddition idx h)) | LNone => Ok None | LPanic => Panic end
+    | Modification idx c =>
+        match lower c with LSome h => Ok (Some (HModification idx h)) | LNone => Ok None | LPanic => Panic end
+    | Nop => Ok (Some HNop)
     end.
 
   (** HIRDiff::update(self, old) *)
@@ -139,13 +148,16 @@ Section Lowering.
     end.
 
   (** HIRDiff::fix(ast, hir, lowerer): chunks whose type contains a failure are lowered again *)
-  Fixpoint hfix (a : ast) (h : hir) : hir :=
+  Fixpoint hfix (a : ast) (h : hir) : res hir :=
     match a, h with
     | c :: a', x :: h' =>
-        (if negb (cname c =? hname x) then x
-         else if hfailed x then match lower c with Some x' => x' | None => x end
-         else x) :: hfix a' h'
-    | _, _ => h
+        match (if negb (cname c =? hname x) then Ok x
+               else if hfailed x then match lower c with LSome x' => Ok x' | LNone => Ok x | LPanic => Panic end
+               else Ok x) with
+        | Panic => Panic
+        | Ok x1 => match hfix a' h' with Panic => Panic | Ok r => Ok (x1 :: r) end
+        end
+    | _, _ => Ok h
     end.
 
   (** * the server's state for one document *)
@@ -205,14 +217,22 @@ Section Lowering.
           if is_nop d then Ok s
           else
             (* steal_lowerer succeeds: the entry exists *)
-            let '(a1, h1) :=
-              match hirdiff_new d, e_hir e with
-              | Some hd, Some h => (Some (update d old), Some (hupdate hd h))
-              | _, _ => (e_ast e, e_hir e)
-              end in
-            let h2 := match h1 with Some h => Some (hfix new h) | None => None end in
-            Ok {| f_text := f_text s; f_mod := Some {| e_ast := a1; e_hir := h2 |};
-                  f_checked := f_checked s; f_pub := f_pub s |}
+            match hirdiff_new d with
+            | Panic => Panic
+            | Ok ohd =>
+              let '(a1, h1) :=
+                match ohd, e_hir e with
+                | Some hd, Some h => (Some (update d old), Some (hupdate hd h))
+                | _, _ => (e_ast e, e_hir e)
+                end in
+              match (match h1 with Some h => match hfix new h with Panic => Panic | Ok h' => Ok (Some h') end
+                                 | None => Ok None end) with
+              | Panic => Panic
+              | Ok h2 =>
+                Ok {| f_text := f_text s; f_mod := Some {| e_ast := a1; e_hir := h2 |};
+                      f_checked := f_checked s; f_pub := f_pub s |}
+              end
+            end
         end
       end
     end.
